@@ -24,7 +24,8 @@ The hypotheses `Scope` (H1: no cycle through two distinct tasks below the start 
 pairwise prefix-incomparable; H3: no task reads what it writes; refs of at least two steps with canonical
 keys; no injected fault) are exactly where the property is *false* of the pinned code (known findings D1:
 sibling cycles through a shared owner, D8: root-level computed keys), see `C01_partial_scope_needed`.
-Function tasks, knobs, `load`, `register` and the in-place operators are outside these theorems
+In-place operators count as the assignment they reduce to (`inplaceCall`).  Function tasks, knobs, `load` and
+`register` are outside these theorems
 (correspondence only).
 -/
 namespace Properties.C01
@@ -86,12 +87,13 @@ def s0 : MState :=
   { MState.init with store := .dict [(.str "d", .dict [(.str "a", .int 1), (.str "b", .int 2), (.str "c", .none), (.str "e", .none)])] }
 def hist : List Call :=
   [.setExpr dc (.bin "Add" (.ref da) (.ref db)), .setExpr de (.bin "Mul" (.ref dc) (.ref da)),
-   .setValue da (.int 5), .cleanup, .setValue dc (.int 7)]
+   .setValue da (.int 5), .cleanup, .inplace "Add" da (.lit (.int 1)), .inplace "Mul" dc (.ref db),
+   .setValue dc (.int 7)]
 theorem s0_inv : MInv s0 := MInv_of_sameGraph (s := MState.init) ⟨rfl, rfl, rfl⟩ MInv.init
 example : goodRunB id s0 hist = true := by decide
 theorem example_consistent : Consistent (applyAll id s0 hist) :=
   C01_decided id hist s0 s0_inv (fun _ h => by cases h) (by decide)
-example : get (applyAll id s0 hist).store de = .ok (.int 35) := rfl
+example : get (applyAll id s0 hist).store de = .ok (.int 42) := rfl
 
 /-- outside the scope the statement is false of the model too (and of the code: known finding D1): two
     members of one nested container feeding each other — `d['n']['y'] = d['n']['x'] + 1`,
